@@ -83,6 +83,17 @@ class Check(HCheck):
                 return
             present = l in clo
             ctx.count("probe_present" if present else "probe_absent")
+            # the second copy of the top-down search (the one resolution uses) must agree
+            try:
+                n2 = trie.follow_lru(l)[0]
+            except AttributeError:
+                n2 = n
+            except Exception as e:
+                ctx.fail("lookup-failed", "top-down walk of %s failed with %s: %s" % (L.show(l), type(e).__name__, e))
+                return
+            if (n2 is not None) != (n is not None) or (n is not None and n2.block != n.block):
+                ctx.fail("lookups-disagree", "the two top-down lookups disagree on %s (%s vs %s)" % (L.show(l), "found" if n is not None else "not found", "found" if n2 is not None else "not found"))
+                return
             if (n is not None) != present:
                 ctx.fail("locatable-iff-named", "%s is %s although it is %s of a named LRU" % (L.show(l), "found" if n is not None else "not found", "a stem-prefix" if present else "no stem-prefix"))
                 return
